@@ -278,6 +278,17 @@ static int filter_cb(cfg_t *cfg, cfg_opt_t *opt)
 	return it->second.count(opt->name) ? 1 : 0;
 }
 
+// eight distinct filter predicates, each with its own hide set (a predicate must not depend on the section it is
+// called for, or inheritance could not be observed)
+static std::set<string> g_fhide[8];
+template <int K> static int filter_k(cfg_t *cfg, cfg_opt_t *opt)
+{
+	(void)cfg;
+	return g_fhide[K].count(opt->name) ? 1 : 0;
+}
+static cfg_print_filter_func_t g_ffuncs[8] = {filter_k<0>, filter_k<1>, filter_k<2>, filter_k<3>,
+					      filter_k<4>, filter_k<5>, filter_k<6>, filter_k<7>};
+
 // ------------------------------------------------------------------------------------------
 // dump through public getters (+ the two public flag bits / struct fields of cfg_opt_t)
 static string dump_cfg(cfg_t *cfg, int depth);
@@ -638,7 +649,7 @@ static void run_script(const string &script)
 		static const std::set<string> cfg_cmds = {"free", "errfunc", "searchpath", "parse_buf", "parse_fp", "parse_file", "setint",
 			"setfloat", "setbool", "setstr", "setlist", "addlist", "setmulti", "osetmulti", "setopt", "setcomment", "addtsec",
 			"rmsec", "rmnsec", "rmtsec", "getopt", "getnopt", "getsec", "getnsec", "gettsec", "size", "getint", "getfloat",
-			"getbool", "getstr", "getcomment", "title", "setvalidate", "setvalidate2", "printfunc", "filter", "dump", "print", "roundtrip",
+			"getbool", "getstr", "getcomment", "title", "setvalidate", "setvalidate2", "printfunc", "filter", "filterk", "dump", "print", "roundtrip",
 			"findfile"};
 		static const std::set<string> opt_cmds = {"osetint", "osetfloat", "osetbool", "osetstr", "osetcomment", "ormnsec", "ormtsec",
 			"ogetnsec", "ogettsec", "oprintfunc", "odump", "oprint", "nprintvar"};
@@ -1029,6 +1040,18 @@ static void run_script(const string &script)
 					hide.insert(A(3 + k).s);
 				g_filters[(void *)cfg] = hide;
 				cfg_set_print_filter_func(cfg, filter_cb);
+			}
+		} else if (c == "filterk") {
+			// filterk h k n names... : install predicate number k (hide set = names) on section h; k = -1 removes
+			cfg_t *cfg = hcfg(N(1));
+			long k = N(2);
+			if (k < 0 || k > 7) {
+				cfg_set_print_filter_func(cfg, NULL);
+			} else {
+				g_fhide[k].clear();
+				for (long j = 0; j < N(3); j++)
+					g_fhide[k].insert(A(4 + j).s);
+				cfg_set_print_filter_func(cfg, g_ffuncs[k]);
 			}
 		} else if (c == "dump") {
 			o += ",\"tree\":" + dump_cfg(hcfg(N(1)), 0);
